@@ -147,14 +147,24 @@ static void pseudo_store(tcallback callback, Word MaxMultCharLen) {
                 goto ToInt;
             }
 
-            while (cp < cend) {
-                callback(&ok, &adr, CharTransTable[((usint)*cp++) & 0xff], t.Flags);
+            while (ok && (cp < cend)) {
+                if (SetMaxCodeLen((adr + 2) << 1)) {
+                    WrError(ErrNum_CodeOverflow);
+                    ok = False;
+                } else {
+                    callback(&ok, &adr, CharTransTable[((usint)*cp++) & 0xff], t.Flags);
+                }
             }
             break;
         }
         case TempInt:
         ToInt:
-            callback(&ok, &adr, t.Contents.Int, t.Flags);
+            if (SetMaxCodeLen((adr + 2) << 1)) {
+                WrError(ErrNum_CodeOverflow);
+                ok = False;
+            } else {
+                callback(&ok, &adr, t.Contents.Int, t.Flags);
+            }
             break;
         default:
             ok = False;
